@@ -145,6 +145,43 @@ def task_average_twins(pr, repo):
         pr.explore(ex, thunk, 'average_of_conformations twins')
 
 
+def task_average_partner_twins(pr, repo):
+    """AVP: determinants towards two hetero partners that print the same label (two ions / two copies of a ligand in one chain; the
+    label has no residue number) stay two rows in the average, each the mean of its own."""
+    ex = Executor(repo)
+    fi = repo.func(MC + '.average_of_conformations')
+    CCls = repo.cls(CC)
+    names = ['1A', '1B']
+
+    def thunk(ex, ctx):
+        partners = []
+        for k in range(2):
+            p = C02.mkgroup(repo, 'ion%d' % k, (0, 0, 0), label='CA   CA A')
+            p.attrs['atom'].attrs.update(type='hetatm', res_num=301 + k)
+            partners.append(p)
+        confs, allg = {}, {}
+        for c in names:
+            g = mk_conf_group(repo, c, 0, partners[0])
+            g.attrs['determinants'] = {'sidechain': [], 'backbone': [],
+                                       'coulomb': [C02.mkdet(repo, 'd%s_%d' % (c, k), group=partners[k], label='CA   CA A') for k in range(2)]}
+            allg[c] = g
+            confs[c] = record('conf' + c, CCls, groups=[g], parameters=None, non_covalently_coupled_groups=False, chains=['A'])
+        mol = record('mol', repo.cls(MC), conformation_names=list(names), conformations=confs)
+        ex.call_function(fi, [], self_obj=mol)
+        avr = confs.get('AVR')
+        ag = avr.attrs['groups'] if isinstance(avr, Obj) else []
+        ok = len(ag) == 1 and len(ag[0].attrs['determinants']['coulomb']) == 2
+        conj = [ok]
+        if ok:
+            for k in range(2):
+                d = ag[0].attrs['determinants']['coulomb'][k]
+                conj.append(d.attrs['group'] is partners[k])
+                conj.append(d.attrs['value'] * 2 == sum(allg[c].attrs['determinants']['coulomb'][k].attrs['value'] for c in names))
+        ctx.oblige('AVP: two equally labelled hetero partners (different residue numbers) keep one determinant row each in the average, '
+                   'each the mean of its own values', And(*conj))
+    pr.explore(ex, thunk, 'average_of_conformations partner twins')
+
+
 def task_topup(pr, repo):
     ex = Executor(repo)
     fi = repo.func(CC + '.top_up_from_atoms')
@@ -273,7 +310,7 @@ def task_sorter(pr, repo):
 
 
 def run(pr, repo):
-    pr.parallel([(task_average, (3,)), (task_average, (2,)), (task_average_twins, ()), (task_topup, ()), (task_topup_conformations, ()), (task_sorter, ()),
+    pr.parallel([(task_average, (3,)), (task_average, (2,)), (task_average_twins, ()), (task_average_partner_twins, ()), (task_topup, ()), (task_topup_conformations, ()), (task_sorter, ()),
                  (C14.task_make_copy, ()), (reader.task_nterm, ())])   # every alternate location of a chain start is tagged N+
     pr.assumptions += ['AV: two group identities over 2 and 3 conformations, one determinant per type and conformation '
                        '(values symbolic); more groups behave independently (find_group matches by atom label and type)',
